@@ -8,6 +8,7 @@ from harness import matgen as mg
 def materialize_real(frame, labels=None, dfperm=None, dictperm=None):
     """Dataset(...).materialize() on the rendered frame -> ('ok', ds, stubs) | ('raises', text, None)"""
     try:
+        mg.run_prelude(frame)
         ds, stubs = mg.make_dataset(frame, labels, dfperm, dictperm)
         ds.materialize()
         return 'ok', ds, stubs
@@ -56,13 +57,14 @@ def check_cells(frame, view, stats, what, order=None, fitted=False):
     if view['numRows'] != n:
         return ('schema/num-rows', f'{what}: frame has {view["numRows"]} rows for a {n}-row DataFrame', n, view['numRows'])
     bycol = {c['name']: c for c in frame['cols']}
+    expected = {}
     for name, col in bycol.items():
         cats = stats.get(name, {}).get('cats', [])
         if col['stype'] in ('categorical', 'multicategorical') and not fitted:
             p = mg.cats_problem(col, cats, name == target)
             if p:
                 return (f'stats/{col["stype"]}', f'{what}: column {name!r}: {p}', None, cats)
-        exp = [mg.expected_cell(col, c, cats) for c in col['cells']]
+        exp = expected[name] = mg.expected_column(col, cats)
         if name == target:
             if view['y'] != exp:
                 i = next((i for i, (a, b) in enumerate(zip(view['y'] or [], exp)) if a != b), None)
@@ -79,8 +81,7 @@ def check_cells(frame, view, stats, what, order=None, fitted=False):
         g = view['grid'].get(st)
         for j, name in enumerate(cols):
             col = bycol[name]
-            cats = stats.get(name, {}).get('cats', [])
-            exp = [mg.expected_cell(col, c, cats) for c in col['cells']]
+            exp = expected[name]
             got = [row[j] for row in g] if isinstance(g, list) and all(len(row) > j for row in g) else None
             if got != exp:
                 return (f'feat/{col["stype"]}', f'{what}: feat_dict[{st}][:, {j}] is not the encoding of column {name!r}',
@@ -90,6 +91,120 @@ def check_cells(frame, view, stats, what, order=None, fitted=False):
     return None
 
 
+def frame_labels(frame):
+    """input-distribution labels of an abstract frame: stypes, dtypes, containers, special values, stress families"""
+    labs = list(frame.get('fam', []))
+    n = frame['n']
+    for dim, v in (('rows', n), ('cols', len(frame['cols']))):
+        lab = mg.size_label(dim, v)
+        if lab:
+            labs.append(lab)
+    tcol = next((c for c in frame['cols'] if c['name'] == frame['target']), None)
+    labs.append('target:' + (tcol['stype'] if tcol else 'none'))
+    cfg = frame.get('cfg') or {}
+    if cfg.get('extra_cols') or cfg.get('split_col'):
+        labs.append('config:unused-df-columns')
+    names = [c['name'] for c in frame['cols']]
+    low = [x.lower() for x in names]
+    if len(set(low)) < len(low):
+        labs.append('names:equal-up-to-case')
+    if sorted(names) != sorted(names, key=str.lower):
+        labs.append('names:case-changes-order')
+    if any(a != b and b.startswith(a) for a in names for b in names) and len(names) <= 64:
+        labs.append('names:prefix-of-another')
+    for col in frame['cols'][:64]:
+        st, r, cells = col['stype'], col['r'], col['cells']
+        labs.append(f'stype:{st}')
+        nm = sum(c is None for c in cells)
+        labs.append(f'{st}:missing:' + ('none' if nm == 0 else 'all' if nm == len(cells) else 'some'))
+        if 'dtype' in r and st != 'timestamp':
+            labs.append(f'dtype:{st}:{r["dtype"]}')
+        if st == 'numerical':
+            if any(c in ('inf', '-inf') for c in cells):
+                labs.append('numerical:inf')
+            vals = [c for c in cells[:500] if isinstance(c, float)]
+            if any(mg.f32(v) != v for v in vals):
+                labs.append('value:float64-not-float32-exact')
+            if any(abs(v) > 2 ** 24 and v == int(v) for v in vals if abs(v) < 1e30):
+                labs.append('value:integer>2^24')
+            if any(v in (-1.0, 0.5) for v in vals):
+                labs.append('value:sentinel-like(-1,0.5)')
+        if st == 'categorical':
+            vals = [c for c in cells[:2000] if c is not None]
+            cnt = {}
+            for v in vals:
+                cnt[v] = cnt.get(v, 0) + 1
+            if len(set(cnt.values())) < len(cnt):
+                labs.append('categorical:tied-counts')
+            if any(v in ('-1', 'nan', 'None', '<NA>', '', -1) for v in cnt):
+                labs.append('value:sentinel-like-category')
+            if any(isinstance(v, str) and v.endswith('\x00') for v in cnt):
+                labs.append('value:trailing-NUL')
+            if any(isinstance(v, int) and abs(v) > 2 ** 24 for v in cnt):
+                labs.append('value:integer-category>2^24')
+            if r['dtype'] == 'category':
+                labs.append(f'dtype:CategoricalDtype:{r.get("cat_order")}' + (':ordered' if r.get('ordered') else ''))
+                if nm:
+                    labs.append('dtype:CategoricalDtype:with-missing')
+            lab = mg.size_label('categories', len(cnt))
+            if lab:
+                labs.append(lab)
+            lab = mg.size_label('celllen', max([len(v) for v in cnt if isinstance(v, str)] + [0]))
+            if lab:
+                labs.append(lab)
+        if st == 'multicategorical':
+            labs.append(f'multicategorical:{r["how"]}' + (f':{r.get("box")}' if r['how'] == 'list' else ''))
+            some = [c for c in cells[:500] if c is not None]
+            if any(len(set(c)) < len(c) for c in some):
+                labs.append('multicategorical:repeated-token')
+            if any(c == [] for c in some):
+                labs.append('multicategorical:empty-cell')
+            toks = {t for c in some for t in c}
+            if r['how'] == 'sep' and any(set(t) & set('|,;:/') for t in toks):
+                labs.append('value:other-separator-inside-token')
+            if any(a != b and b.startswith(a) and a for a in list(toks)[:40] for b in list(toks)[:40]):
+                labs.append('value:token-prefix-of-another')
+            lab = mg.size_label('tokens-per-cell', max([len(c) for c in some] + [0]))
+            if lab:
+                labs.append(lab)
+            lab = mg.size_label('token-pool', col.get('k', 0))
+            if lab:
+                labs.append(lab)
+            lab = mg.size_label('celllen', max([len(t) for t in toks] + [0]))
+            if lab:
+                labs.append(lab)
+        if st == 'timestamp':
+            if r['kind'] == 'str':
+                labs.append(f'timestamp:fmt:{r["fmt"]}:{r["dtype"]}')
+            elif r['kind'] == 'pyobj':
+                labs.append(f'timestamp:object-column-of-{r["pyobj"]}' + (':tz' if r.get('tz') is not None else ''))
+            else:
+                labs.append(f'timestamp:{r["kind"]}[{r["unit"]}]')
+            if r.get('tz') is not None or r['kind'] == 'dt64tz':
+                labs.append('dtype:tz-aware' + (':nonzero-offset' if (r.get('tz') or r.get('tzname') not in (None, 'UTC', '+00:00')) else ''))
+            if r.get('frac') is not None and any(isinstance(c, int) and mg.frac_us(r, c) >= 500000 for c in cells[:500]):
+                labs.append('dtype:sub-second>=0.5s')
+            elif r.get('frac') is not None:
+                labs.append('dtype:sub-second')
+            if any(isinstance(c, dict) for c in cells[:500]):
+                labs.append('timestamp:unparseable')
+        if st == 'sequence_numerical':
+            if any(c is not None and 'nan' in c for c in cells[:500]):
+                labs.append('sequence:nan-entry')
+            lab = mg.size_label('seqlen', max([len(c) for c in cells[:500] if c] + [0]))
+            if lab:
+                labs.append(lab)
+        if st == 'embedding':
+            labs.append(f'embedding:as:{r["as"]}')
+        if st in mg.EMB_KINDS:
+            lab = mg.size_label('embwidth', r['w'])
+            if lab:
+                labs.append(lab)
+        if col.get('shared_raw'):
+            labs.append('shared-raw:column')
+    return labs
+
+
 class C01(core.Check):
     pid = 'C01'
     driver = 'drv_c01'
@@ -97,15 +212,26 @@ class C01(core.Check):
     thorough_cases = 5000
     rule = ('abstract frames of 1-12 rows x 1-8 feature columns (+ optional target: numerical / 1-,2-,3+-class '
             'categorical / timestamp) over numerical, categorical (str and int values), multicategorical (sep-joined '
-            'with padding / list-valued, repeated and empty tokens), sequence_numerical (NaN entries, []), timestamp '
-            '(1700-2200, 8 explicit formats + auto, datetime64[s|ms|us|ns], unparseable strings), embedding (width 1-5, '
-            'list / ndarray, missing cells) and text_/image_embedded (deterministic stub embedder, batch sizes None/1/2/5); missing '
-            'rates 0-60% incl. all-missing columns; every string column in object or str dtype, None or NaN as the '
-            'missing marker, nullable / numpy numeric dtypes; 30% of the frames carry a non-default index. Rendered to '
-            'pandas, Dataset(...).materialize(); every cell read through feat_dict, get_col_feat and y and compared '
-            'exactly with the Lean model (which receives the abstract frame and the observed category lists). '
-            'Non-trivial = materialization succeeded on a frame with at least one non-missing cell; distinct = hash '
-            'of the abstract frame.')
+            'with padding / list-, tuple-, set-, ndarray-valued, repeated and empty tokens, tokens containing other columns\' '
+            'separators), sequence_numerical (NaN entries, []), timestamp (1700-2200, 11 explicit formats incl. %f and %z + auto, '
+            'datetime64[s|ms|us|ns] with sub-second parts, tz-aware datetime64 with fixed offsets, object columns of datetime / '
+            'Timestamp, unparseable strings), embedding (width 1-5, list / tuple / float64- / float32-ndarray, missing cells) and '
+            'text_/image_embedded (deterministic stub embedder, batch sizes None/1/2/5/17/256); missing rates 0-60% incl. '
+            'all-missing columns; string columns in object, str, `string` or CategoricalDtype (sorted / reversed / shuffled / ordered '
+            'categories, with missing cells), None or NaN as the missing marker, nullable / numpy numeric dtypes of every width; '
+            'values incl. sentinel look-alikes (-1, 0.5, "-1", "nan", "None", "<NA>", trailing NUL), float64 payloads that are not '
+            'float32-exact or overflow float32, integers > 2^24 / 2^53, mixed-case and prefix-related names. Every 40th case (80th '
+            'in the thorough tier) scales ONE dimension to a rung of the size ladder of the stress level (harness/stress.py: rows, '
+            'columns, categories, token pool, tokens per cell, cell length, sequence length, embedding width; <= 259 / 4 099 / 65 539), '
+            '~7% of the frames hold 2-3 columns with different separators / day-first vs month-first formats drawn from ONE pool of '
+            'raw texts, optionally after another dataset (other separators) consumed the same texts earlier in the process; '
+            'second materialize() calls, twin comparison of the input frame, configuration passed as dict in shuffled key order / '
+            'as one string / with None entries left out, unused DataFrame columns and a split column; ~35% of the frames carry a '
+            'non-default index (17 kinds). Rendered to pandas, Dataset(...).materialize(); every cell read through feat_dict, '
+            'get_col_feat and y and compared exactly with the Lean model (which receives the abstract frame and the observed '
+            'category lists); frames above 17 000 rows / 4 200 columns / 4 200 categories are judged by the plain-Python oracle '
+            'only (oracle_only_cases). Non-trivial = materialization succeeded on a frame with at least one non-missing cell; '
+            'distinct = hash of the abstract frame.')
     partial_notes = (
         'pandas / dateutil parsing, dtype inference and numpy casts are outside the model (cells are abstract); '
         'the renderer + exact comparison exercise them',
@@ -117,37 +243,89 @@ class C01(core.Check):
         'text_tokenized columns (dictionaries of token tensors) are not part of this check',
         'a plain embedding column without a single non-missing vector has no width and still raises: outside the '
         'domain (every generated embedding column keeps at least one vector)',
+        'tz-aware timestamps are generated with ONE fixed UTC offset per column (datetime64[unit, tz], %z text, datetime '
+        'objects): the seven components are those of the wall clock as written; zones with daylight-saving transitions, '
+        'mixed offsets in one column and mixed text precisions under format=None are not generated (see '
+        'observed_outside_generated_domain)',
+        'frames above 17 000 rows / 4 200 columns / 4 200 categories (thorough tier: 32 769 / 65 537 rungs) are judged by the '
+        'plain-Python oracle only; they are read column-wise (feat[:, j]) with spot checks through feat[i, j]',
     )
-    assumptions = ('float payloads are float32-exact, so the float32 cast of the numerical mapper is the identity',)
+    assumptions = ('the float32 cast of the mappers is applied to float payloads by the harness (struct round-trip, C cast '
+                   'semantics) before they reach the model / the oracle; the model only moves the payload bits',)
 
     def __init__(self):
         self._side = {}
 
+    _replaying = False
+
+    def replay(self, path):
+        self._replaying = True
+        return super().replay(path)
+
+    def skip_model(self):
+        """SKIP_MODEL for the engine; a printable marker while replaying (core.replay json-dumps the model outcome)"""
+        return 'oracle-only case: not shipped to the Lean model' if self._replaying else core.SKIP_MODEL
+
     # ------------------------------------------------------------------ generation
     def generate(self, rng, n, tier):
+        lvl = self.level
+        period = 40 if lvl < 2 else 80
         for k in range(n):
             focus = [None, 'multicategorical', 'timestamp', 'categorical', 'sequence_numerical', 'numerical',
                      'embedding', 'text_embedded'][k % 8]
-            if k % 211 == 13:
-                frame = mg.gen_frame(rng, n=rng.randint(1024, 1100), ncols=rng.choice([1, 2, 3]), focus=focus)
+            if k % period == 7:
+                # one dimension from the size ladder of the stress level (rows, columns, categories, tokens per cell,
+                # cell length, sequence length, embedding width), round robin
+                frame = mg.gen_scaled_frame(rng, lvl, mg.SCALE_DIMS[(k // period) % len(mg.SCALE_DIMS)],
+                                            top=k // period < len(mg.SCALE_DIMS))
+            elif k % 211 == 13:
+                frame = mg.gen_frame(rng, n=rng.randint(1024, 1100), ncols=rng.choice([1, 2, 3]), focus=focus, level=lvl)
             else:
-                frame = mg.gen_frame(rng, focus=focus)
-            labels = mg.gen_labels(rng, frame['n']) if rng.random() < 0.3 else mg.gen_labels(rng, frame['n'], 'range')
+                frame = mg.gen_frame(rng, focus=focus, level=lvl)
+            if frame['n'] > 16 and rng.random() < 0.5:
+                labels = mg.gen_labels(rng, frame['n'], rng.choice(['perm', 'dup', 'bigint', 'str', 'spread']))
+            elif rng.random() < 0.3:
+                labels = mg.gen_labels(rng, frame['n'])
+            else:
+                labels = mg.gen_labels(rng, frame['n'], 'range')
             yield {'frame': frame, 'labels': labels}
 
     # ------------------------------------------------------------------ real side
     def real(self, case):
         frame = case['frame']
         st, ds, stubs = materialize_real(frame, case.get('labels'))
+        side = {'cats': {}}
+        self._side[id(case)] = side
         if st == 'raises':
-            self._side[id(case)] = {'error': ds, 'cats': {}}
+            side['error'] = ds
             return 'raises'
         out = outcome_of(ds, frame)
-        self._side[id(case)] = {'cats': {c: s['cats'] for c, s in out['ok']['stats'].items()}, 'stubs': stubs}
+        side.update(cats={c: s['cats'] for c, s in out['ok']['stats'].items()}, stubs=stubs)
+        if frame.get('again'):
+            # history: a second materialize() on the same dataset must leave the frame as it was
+            try:
+                ds.materialize()
+                side['again'] = None if mg.canon_tf(ds.tensor_frame) == out['ok']['tf'] else 'the TensorFrame changed'
+            except Exception as e:   # noqa
+                side['again'] = f'raises {type(e).__name__}: {str(e)[:120]}'
+        if frame.get('twin'):
+            # aliasing: the input DataFrame compared with an identically built twin afterwards
+            try:
+                side['twin'] = mg.frames_identical(ds.df, mg.render(frame, case.get('labels')))
+            except Exception as e:   # noqa
+                side['twin'] = f'comparison raises {type(e).__name__}: {str(e)[:120]}'
+        if not mg.model_feasible(frame):
+            # too large for the list-based Lean model: judged by the plain-Python oracle right away, and only a digest
+            # of the (large) outcome is kept
+            side['verdict'] = self.judge(case, out)
+            side['judged'] = True
+            return {'ok': {'oracle-only': core.stable_hash(out), 'numRows': out['ok']['tf']['numRows']}}
         return out
 
     # ------------------------------------------------------------------ model side
     def model_requests(self, case):
+        if not mg.model_feasible(case['frame']):
+            return []
         side = self._side.get(id(case), {'cats': {}})
         req = {'cmd': 'mat', 'variants': []}
         req.update(mg.model_frame(case['frame'], side['cats'], case.get('labels')))
@@ -155,13 +333,22 @@ class C01(core.Check):
         return [req]
 
     def model_outcome(self, case, replies):
+        if not mg.model_feasible(case['frame']):
+            return self.skip_model()
         return model_view(replies[0][0], case['frame'])
 
     # ------------------------------------------------------------------ oracle
     def oracle(self, case, real_outcome):
+        side = self._side.get(id(case), {})
+        if side.get('judged'):
+            return side['verdict']
+        return self.judge(case, real_outcome)
+
+    def judge(self, case, real_outcome):
         frame = case['frame']
+        side = self._side.get(id(case), {})
         if real_outcome == 'raises':
-            err = self._side.get(id(case), {}).get('error', '')
+            err = side.get('error', '')
             return core.Violation('materialize-raises', f'materialize() raised on an in-domain frame: {err}', case,
                                   'a TensorFrame', err)
         o = real_outcome['ok']
@@ -169,14 +356,20 @@ class C01(core.Check):
         if v:
             return core.Violation(v[0], v[1], case, v[2], v[3])
         # the embedder must have been called on exactly the column's strings, in row order
-        stubs = self._side.get(id(case), {}).get('stubs') or {}
+        stubs = side.get('stubs') or {}
         for col in frame['cols']:
             if col['name'] in stubs:
                 want = [mg.text_input(col, c) for c in col['cells']]
                 got = [s for call in stubs[col['name']].calls for s in call]
                 if got[:len(want)] != want:
                     return core.Violation('embedder-input', f'embedder of {col["name"]!r} did not receive str(cell) row by row',
-                                          case, want, got)
+                                          case, want[:50], got[:50])
+        if side.get('again'):
+            return core.Violation('history/materialize-twice', f'a second materialize() on the same dataset: {side["again"]}',
+                                  case, 'the same TensorFrame', side['again'])
+        if side.get('twin'):
+            return core.Violation('alias/input-frame-modified', f'materialize() modified the DataFrame it was given: {side["twin"]}',
+                                  case, 'an unchanged DataFrame', side['twin'])
         return None
 
     def nontrivial_key(self, case, real_outcome):
@@ -188,42 +381,21 @@ class C01(core.Check):
 
     def classify(self, case, real_outcome):
         frame = case['frame']
-        labs = [f"rows:{frame['n']}", f"cols:{len(frame['cols'])}", f"labels:{case['labels']['kind']}",
-                'outcome:' + ('raises' if real_outcome == 'raises' else 'ok')]
-        tcol = next((c for c in frame['cols'] if c['name'] == frame['target']), None)
-        labs.append('target:' + (tcol['stype'] if tcol else 'none'))
-        for col in frame['cols']:
-            st, r, cells = col['stype'], col['r'], col['cells']
-            labs.append(f'stype:{st}')
-            nm = sum(c is None for c in cells)
-            labs.append(f'{st}:missing:' + ('none' if nm == 0 else 'all' if nm == len(cells) else 'some'))
-            if 'dtype' in r and st != 'timestamp':
-                labs.append(f'{st}:dtype:{r["dtype"]}')
-            if st == 'multicategorical':
-                labs.append(f'multicategorical:{r["how"]}')
-                if any(c is not None and len(set(c)) < len(c) for c in cells):
-                    labs.append('multicategorical:repeated-token')
-                if any(c == [] for c in cells):
-                    labs.append('multicategorical:empty-cell')
-            if st == 'timestamp':
-                labs.append('timestamp:' + (f'dt64[{r["unit"]}]' if r['kind'] == 'dt64' else f'fmt:{r["fmt"]}:{r["dtype"]}'))
-                if any(isinstance(c, dict) for c in cells):
-                    labs.append('timestamp:unparseable')
-            if st == 'categorical':
-                vals = [c for c in cells if c is not None]
-                cnt = {v: vals.count(v) for v in set(vals)}
-                if len(set(cnt.values())) < len(cnt):
-                    labs.append('categorical:tied-counts')
-            if st == 'sequence_numerical' and any(c is not None and 'nan' in c for c in cells):
-                labs.append('sequence:nan-entry')
-            if st == 'numerical' and any(c in ('inf', '-inf') for c in cells):
-                labs.append('numerical:inf')
+        labs = [f"rows:{frame['n']}" if frame['n'] <= 12 else 'rows:13+', f"cols:{len(frame['cols'])}" if len(frame['cols']) <= 9 else 'cols:10+',
+                f"labels:{case['labels']['kind']}", 'outcome:' + ('raises' if real_outcome == 'raises' else 'ok')]
+        labs += frame_labels(frame)
+        if real_outcome != 'raises' and 'oracle-only' in real_outcome['ok']:
+            labs.append('judged:oracle-only(too large for the Lean model)')
         return sorted(set(labs))
 
     # ------------------------------------------------------------------ extra checks
     def extra_checks(self, rng, tier, report):
         self.calendar_sweep(rng, tier, report)
         self.pipeline_labels(rng, tier, report)
+        try:
+            report['extra']['observed_outside_generated_domain'] = mg.probe_outside_domain()
+        except Exception as e:   # noqa
+            report['extra']['observed_outside_generated_domain'] = [f'probe failed: {type(e).__name__}: {e}']
 
     def calendar_sweep(self, rng, tier, report):
         """Lean calendar vs Python datetime on epoch seconds 0001-2400 (boundaries of every year + random)"""
